@@ -87,6 +87,20 @@ are at most `k` set bits — for every word and every `k`. -/
 theorem select_broadword_eq (x : BitVec 64) (k : Nat) : selectBroadword x k = selectInWordSpec x k :=
   Kernels.selectBroadword_eq x k
 
+/-- No arithmetic of `select_in_word_broadword` leaves its range when `k < count_ones(x)`: the
+byte loop always breaks with `byte_idx < 8` (so `x >> byte_offset` shifts by < 64) and
+`cumulative ≤ k` with `k - cumulative < 8` (so the `u32` subtraction cannot underflow and the table
+index is in bounds).  The model's natural-number subtraction therefore never hides a wrap. -/
+theorem broadword_in_range (x : BitVec 64) (k : Nat) (hk : k < popc x) :
+    (bwFindByte (Gen.broadword_byte_counts x) k 8 0 0).1 < 8
+      ∧ (bwFindByte (Gen.broadword_byte_counts x) k 8 0 0).2 ≤ k
+      ∧ k - (bwFindByte (Gen.broadword_byte_counts x) k 8 0 0).2 < 8 :=
+  Kernels.broadword_in_range x k hk
+
+example : (12 : Nat) < popc 0x8000_0000_00F0_F0F0#64
+    ∧ bwFindByte (Gen.broadword_byte_counts 0x8000_0000_00F0_F0F0#64) 12 8 0 0 = (7, 12) := by
+  decide +kernel
+
 example : selectBroadword 0x8000_0000_00F0_F0F0#64 12 = 63
     ∧ selectBroadword 0x8000_0000_00F0_F0F0#64 7 = 15
     ∧ selectBroadword 0x8000_0000_00F0_F0F0#64 13 = 64 := by
